@@ -17,7 +17,7 @@ CLAIMED = {
    "Honest requests of every shape are generated from the replica's own state; every created proof must be accepted and the replica must equal the model derived from the writer's data, across replica reopen, ending with the standard fetch-everything loop.",
    "writer-side Err is treated as 'no proof' (documented refusals), counted per request shape in the evidence"),
  "C04": ("exploration",
-   "complete single-field proof alteration set + random 2-4 combinations + systematic forgeries (second writer/other key, substituted block with recomputed parents, exchanged signatures, replays) against replica snapshots; refused=>unchanged, accepted=>only signed data, convergence oracle",
+   "complete single-field proof alteration set + random 2-4 combinations + systematic forgeries (second writer/other key, substituted block with recomputed parents, exchanged signatures, replays, section grafts) against replica snapshots; refused=>unchanged, accepted=>only signed data + second-step forgeries still refused + convergence oracle; libFuzzer target in thorough",
    "For honest proofs of every request shape (exhaustive single-request family for small logs, seeded-random sessions beyond) every single-field alteration is generated and applied to a byte copy of the replica; a refused proof must leave observation and stored state unchanged, an accepted one must leave only writer-signed data and honest replication must still converge.",
    "size fields of the bottom node of hash-only and seek sections are excluded by construction (counted in the evidence), as in the statement; Ed25519/BLAKE2b are trusted"),
  "C07": ("fault_enumeration",
@@ -33,7 +33,7 @@ CLAIMED = {
    "For each generated history a dry run counts the storage operations; the history is re-run once per operation index with that operation failing. All indices are enumerated, histories are bounded-exhaustive for short lengths and seeded-random beyond.",
    "the failing operation has no effect on the store; one fault per run"),
  "C05": ("exploration",
-   "differential against an independent re-implementation of the Hypercore v10 Merkle/signature scheme over generated block sequences: all lengths 0..70 x size patterns x build modes + seeded-random sequences + replicas; persisted nodes, header/entry signatures and proof nodes compared",
+   "differential against an independent re-implementation of the Hypercore v10 Merkle/signature scheme over generated block sequences: all lengths 0..70 x size patterns x build modes + seeded-random sequences + replicas + every crash state + reference-signed virtual logs (sizes beyond 2^32) served to the crate; persisted nodes, header/entry signatures and proof nodes compared",
    "Every full tree node persisted by the crate (tree file overlaid with unflushed oplog entry nodes), the stored root hash and every stored or served signature is compared with / verified against a reference computed by independent code at every operation boundary.",
    "shares only the BLAKE2b, Ed25519 (verify_strict) and CRC32 primitives with the crate; flat-tree arithmetic, hashing layout, signable and file parsing are independent"),
  "C06": ("exploration",
@@ -53,15 +53,15 @@ CLAIMED = {
    "Histories with make_read_only at generated positions (bounded-exhaustive over 9 symbols, then random) on writers and replicas; files are scanned for the key after the call and after every later operation; every crash point of histories containing the call is enumerated.",
    "fixed test key pair; the scan looks for the 32-byte secret and both of its 16-byte halves"),
  "C13": ("exploration",
-   "event-trace oracle over generated writer and replica histories with 0..4 subscribers, drained after every call",
+   "event-trace oracle over generated writer and replica histories (incl. altered, wrong-fork and replayed proofs, injected storage faults) with 0..4 subscribers, drained after every call",
    "For every call of generated histories the exact list of events every subscriber must have seen is computed from the model and compared, including refused/altered proofs and failing calls.",
    "calls the statement does not mention (missing_nodes, clear) are only required not to announce availability"),
  "C14": ("exploration",
-   "differential across storage backends (instrumented memory, journaled, stock random-access-memory with several page sizes, stock disk in a scratch directory) x node cache configurations (off, default, 3 nodes): all step results, complete proofs and file bytes compared",
+   "differential across storage backends (instrumented memory, journaled, stock random-access-memory with several page sizes, stock disk in a scratch directory, with and without the sparse feature) x node cache configurations (off, default, 3 nodes) over generated histories with honest and arbitrary peer requests + enumerated refused-request-then-growth scenarios: all step results, complete proofs and file bytes compared",
    "The same generated history (writer ops and replication steps, one key pair) runs on every configuration; any difference in a result or in a file byte is a violation.",
    "physical allocation is not compared (punched holes read back as zeros); thorough additionally runs a build without the sparse feature"),
  "C15": ("exploration",
-   "deterministic single-threaded scheduler over a yielding backend: ALL schedules (stateless DFS) for 2 tasks x <=2 calls, seeded-random programs/schedules beyond; tagged-journal atomicity + sequential-replay linearizability oracle with search over real-time-consistent orders",
+   "deterministic single-threaded scheduler over a yielding backend: ALL schedules (stateless DFS) for 2 tasks x <=2 calls, seeded-random programs/schedules beyond, plus a stage that forces the mutex into FIFO hand-over so every lock acquisition is preemptible; tagged-journal atomicity + sequential-replay linearizability oracle with search over real-time-consistent orders",
    "SharedCore is driven by a scheduler that owns every preemption point (each storage operation and each call boundary); every execution must be equal to some sequential order of its calls and no call's storage operations may interleave with another's.",
    "task interleavings only (no OS-thread races); async_lock's wall-clock fairness can change the winner of the lock, not the oracle's verdict"),
 }
